@@ -28,13 +28,15 @@ func init() {
 }
 
 type termCtx struct {
-	c     *Ctx
-	defs  map[types.Object]ast.Expr
-	args  types.Object            // the variadic parameter of a built-in (nil for helpers)
-	names map[types.Object]string // parameters of a helper -> "x","y"
-	depth int
-	bad   string
-	expand bool // see through module functions that are a single `return <expr>`
+	c      *Ctx
+	defs   map[types.Object]ast.Expr
+	args   types.Object            // the variadic parameter of a built-in (nil for helpers)
+	names  map[types.Object]string // parameters of a helper -> "x","y"
+	depth  int
+	bad    string
+	expand bool                    // see through module functions that are a single `return <expr>`
+	locals map[types.Object]string // non-inlined local variables, numbered $0, $1, ... by first appearance (when non-nil)
+	loops  []absLoop               // enclosing element loops: their element prints ELEM, their index IDX
 }
 
 var commutative = map[string]bool{"add": true, "mul": true, "eq": true, "and": true, "or": true, "Equal": true, "val.Equals": true, "math.Max": true, "math.Min": true, "absdiff": true}
@@ -52,6 +54,15 @@ func mk(op string, xs ...string) string {
 func (t *termCtx) tr(e ast.Expr) string {
 	c := t.c
 	e = unparen(e)
+	for i := len(t.loops) - 1; i >= 0; i-- {
+		l := t.loops[i]
+		if l.isElem(c.Prog, e) {
+			return "ELEM"
+		}
+		if id, ok := e.(*ast.Ident); ok && l.idx != nil && c.objOf(id) == l.idx {
+			return "IDX"
+		}
+	}
 	switch x := e.(type) {
 	case *ast.Ident:
 		o := c.objOf(x)
@@ -73,6 +84,14 @@ func (t *termCtx) tr(e ast.Expr) string {
 			}
 			if x.Name == "true" || x.Name == "false" || x.Name == "nil" {
 				return x.Name
+			}
+			if v, ok := o.(*types.Var); ok && t.locals != nil && !v.IsField() && v.Pkg() != nil && v.Parent() != v.Pkg().Scope() {
+				if n, ok := t.locals[o]; ok {
+					return n
+				}
+				n := fmt.Sprintf("$%d", len(t.locals))
+				t.locals[o] = n
+				return n
 			}
 			return qual(o)
 		}
@@ -105,6 +124,23 @@ func (t *termCtx) tr(e ast.Expr) string {
 		}
 		base := t.tr(x.X)
 		return base + "." + x.Sel.Name
+	case *ast.TypeAssertExpr:
+		if x.Type == nil {
+			return "typeswitch(" + t.tr(x.X) + ")"
+		}
+		return "assert:" + typeStr(c.typeOf(x.Type)) + "(" + t.tr(x.X) + ")"
+	case *ast.CompositeLit:
+		var es []string
+		for _, e := range x.Elts {
+			es = append(es, t.tr(e))
+		}
+		return "lit:" + typeStr(c.typeOf(x)) + "{" + strings.Join(es, ",") + "}"
+	case *ast.KeyValueExpr:
+		return t.tr(x.Key) + ":" + t.tr(x.Value)
+	case *ast.StarExpr:
+		return "deref(" + t.tr(x.X) + ")"
+	case *ast.FuncLit:
+		return "funclit@" + c.pos(x.Pos())
 	case *ast.SliceExpr:
 		lo, hi := "", ""
 		if x.Low != nil {
@@ -600,19 +636,77 @@ func (t *termCtx) condTerm(pc pathCond) string {
 	if pc.pos {
 		return s
 	}
-	if strings.HasPrefix(s, "not(") {
-		return s[4 : len(s)-1]
-	}
-	// le/lt have exact complements
-	if strings.HasPrefix(s, "lt(") {
-		a := sortedArgsKeep(s[3 : len(s)-1])
-		return "le(" + a[1] + "," + a[0] + ")"
-	}
-	if strings.HasPrefix(s, "le(") {
-		a := sortedArgsKeep(s[3 : len(s)-1])
-		return "lt(" + a[1] + "," + a[0] + ")"
+	return negTerm(s)
+}
+
+// negTerm negates a term: double negation, exact complements of lt/le, De Morgan for and/or.
+func negTerm(s string) string {
+	op, as := splitTerm(s)
+	switch {
+	case op == "not" && len(as) == 1:
+		return as[0]
+	case op == "lt" && len(as) == 2:
+		return "le(" + as[1] + "," + as[0] + ")"
+	case op == "le" && len(as) == 2:
+		return "lt(" + as[1] + "," + as[0] + ")"
+	case (op == "and" || op == "or") && len(as) >= 2:
+		var ns []string
+		for _, a := range as {
+			ns = append(ns, negTerm(a))
+		}
+		sort.Strings(ns)
+		return map[string]string{"and": "or", "or": "and"}[op] + "(" + strings.Join(ns, ",") + ")"
+	case s == "true":
+		return "false"
+	case s == "false":
+		return "true"
 	}
 	return "not(" + s + ")"
+}
+
+// evalTerm evaluates a boolean term under a partial assignment of atoms: 1 true, 0 false, -1 unknown.
+func evalTerm(s string, atoms map[string]bool) int {
+	if v, ok := atoms[s]; ok {
+		if v {
+			return 1
+		}
+		return 0
+	}
+	op, as := splitTerm(s)
+	switch op {
+	case "not":
+		if len(as) == 1 {
+			switch evalTerm(as[0], atoms) {
+			case 1:
+				return 0
+			case 0:
+				return 1
+			}
+		}
+	case "and":
+		r := 1
+		for _, a := range as {
+			switch evalTerm(a, atoms) {
+			case 0:
+				return 0
+			case -1:
+				r = -1
+			}
+		}
+		return r
+	case "or":
+		r := 0
+		for _, a := range as {
+			switch evalTerm(a, atoms) {
+			case 1:
+				return 1
+			case -1:
+				r = -1
+			}
+		}
+		return r
+	}
+	return -1
 }
 
 // sortedArgsKeep splits "a,b" at the top-level comma without reordering.
@@ -690,4 +784,144 @@ func (t *termCtx) pathTerms(p retPath) []string {
 		out = append(out, conjuncts(ct)...)
 	}
 	return out
+}
+
+// stmtTerm prints a straight-line statement as a term.
+func (t *termCtx) stmtTerm(s ast.Stmt) string {
+	switch x := s.(type) {
+	case *ast.AssignStmt:
+		var ls, rs []string
+		for _, r := range x.Rhs {
+			rs = append(rs, t.tr(r))
+		}
+		for _, l := range x.Lhs {
+			ls = append(ls, t.tr(l))
+		}
+		op := "set"
+		if x.Tok != token.ASSIGN && x.Tok != token.DEFINE {
+			op = "set" + x.Tok.String()
+		}
+		return op + "([" + strings.Join(ls, ",") + "],[" + strings.Join(rs, ",") + "])"
+	case *ast.ExprStmt:
+		return t.tr(x.X)
+	case *ast.IncDecStmt:
+		return x.Tok.String() + "(" + t.tr(x.X) + ")"
+	case *ast.DeclStmt:
+		return "decl@" + t.c.pos(x.Pos())
+	case *ast.RangeStmt, *ast.ForStmt:
+		// a loop over the elements of one sequence prints the same whether it is a range or a counted loop
+		if ls := t.c.absLoops(s, t.defs); len(ls) > 0 && ls[0].stmt == s {
+			l := ls[0]
+			start := "0"
+			if l.start != nil {
+				start = t.tr(l.start)
+			}
+			t.loops = append(t.loops, l)
+			body := sxWith(l.body.List, func(n ast.Node) (string, bool) {
+				if e, ok := n.(ast.Expr); ok {
+					if l.isElem(t.c.Prog, e) {
+						return "ELEM", true
+					}
+					if _, isIdent := e.(*ast.Ident); isIdent {
+						return t.tr(e), true
+					}
+				}
+				return "", false
+			})
+			t.loops = t.loops[:len(t.loops)-1]
+			seq := ""
+			if l.seq != nil {
+				seq = t.tr(l.seq)
+			} else {
+				seq = "0.." + t.tr(l.bound)
+			}
+			return "foreach(" + seq + " from " + start + "){" + body + "}"
+		}
+		return "loop(" + sxWith(s, func(n ast.Node) (string, bool) {
+			if e, ok := n.(ast.Expr); ok {
+				if _, isIdent := e.(*ast.Ident); isIdent {
+					return t.tr(e), true
+				}
+			}
+			return "", false
+		}) + ")"
+	case *ast.DeferStmt:
+		return "defer(" + t.tr(x.Call) + ")"
+	}
+	return fmt.Sprintf("stmt:%T", s)
+}
+
+// pathSigs summarises a loop-free function as the sorted list of its paths: branch conditions (sorted, assertions
+// dropped), the straight-line statements executed (in order) and what is returned. Single-assignment locals are inlined,
+// the others numbered by first appearance along the path, receiver "r", parameters "p0".. — so that two functions have
+// the same summary iff they make the same decisions and perform the same effects, however if/else, early returns,
+// temporaries and names are arranged. ok=false: loops with returns / too many paths.
+func (c *Ctx) pathSigs(fn ast.Node, body *ast.BlockStmt, keepAsserts bool) ([]string, bool) {
+	paths, ok := c.retPathsLoose(body.List)
+	if !ok {
+		return nil, false
+	}
+	var out []string
+	for _, p := range paths {
+		t := c.fnTerms(fn)
+		t.locals = map[types.Object]string{}
+		// execution order along a structured path = source order
+		type item struct {
+			pos  token.Pos
+			cond *pathCond
+			stmt ast.Stmt
+		}
+		var items []item
+		for i := range p.conds {
+			items = append(items, item{pos: p.conds[i].e.Pos(), cond: &p.conds[i]})
+		}
+		for _, s := range p.stmts {
+			items = append(items, item{pos: s.Pos(), stmt: s})
+		}
+		sort.SliceStable(items, func(i, j int) bool { return items[i].pos < items[j].pos })
+		var conds, stmts []string
+		for _, it := range items {
+			if it.cond != nil {
+				if it.cond.fromAssert && !keepAsserts {
+					continue
+				}
+				conds = append(conds, conjuncts(t.condTerm(*it.cond))...)
+			} else {
+				if as, ok := it.stmt.(*ast.AssignStmt); ok && len(as.Lhs) == len(as.Rhs) {
+					// definitions of inlined single-assignment locals are not effects
+					all := true
+					for _, l := range as.Lhs {
+						id, isID := l.(*ast.Ident)
+						if !isID {
+							all = false
+							break
+						}
+						if _, inl := t.defs[c.objOf(id)]; !inl {
+							all = false
+						}
+					}
+					if all {
+						continue
+					}
+				}
+				stmts = append(stmts, t.stmtTerm(it.stmt))
+			}
+		}
+		sort.Strings(conds)
+		end := p.end
+		ret := ""
+		if p.ret != nil {
+			var rs []string
+			for _, r := range p.ret.Results {
+				rs = append(rs, t.tr(r))
+			}
+			ret = strings.Join(rs, ",")
+			if len(rs) == 0 {
+				end = "fall"
+			}
+		}
+		out = append(out, "if{"+strings.Join(conds, " & ")+"} do{"+strings.Join(stmts, "; ")+"} "+end+"{"+ret+"}")
+	}
+	sort.Strings(out)
+	return out, true
 }
